@@ -102,7 +102,7 @@ func versionGrid(thorough bool) []string {
 	// numbers whose decimal order differs from their order as text (9 / 10 / 11, 99 / 100) are on both axes
 	nums, patches, sufs := []int{0, 1, 2, 3, 9, 10, 11}, []int{0, 7}, []string{"", "-rc.1", "+b5"}
 	if thorough {
-		nums, patches, sufs = []int{0, 1, 2, 3, 4, 5, 9, 10, 11, 99, 100}, []int{0, 7, 12}, []string{"", "-rc.1", "+b5", "-rc.1+b5", "-0", "-alpha.beta-1"}
+		nums, patches, sufs = []int{0, 1, 2, 3, 4, 5, 9, 10, 11, 99, 100}, []int{0, 12}, []string{"", "-rc.1", "+b5", "-rc.1+b5.x-y"}
 	}
 	for _, ma := range nums {
 		for _, mi := range nums {
@@ -149,7 +149,7 @@ func init() {
 	Register(&Check{
 		ID:    "C18",
 		Level: "exploration",
-		Rule: "full grid of (build version B, declared version V) pairs: majors and minors in {0,1,2,3,9,10,11} x patches {0,7} x {release,-rc.1,+b5} on both axes (thorough: {0..5,9,10,11,99,100} x {0,7,12} x six suffix forms), " +
+		Rule: "full grid of (build version B, declared version V) pairs: majors and minors in {0,1,2,3,9,10,11} x patches {0,7} x {release,-rc.1,+b5} on both axes (thorough: {0..5,9,10,11,99,100} x {0,12} x four suffix forms, 937 000 pairs), " +
 			"plus non-semver builds, absent V, malformed V, and 11 real binaries linked with -X main.version / commit / date / builtBy / isGitDirty (v-prefixed, with prerelease and build metadata, from a dirty tree); a case is non-trivial when B is a semantic version and V is present (the gate is actually evaluated); distinct = distinct (B,V) pair",
 		Assumptions: []string{
 			"in-process cmd.NewBuildCmd(B, info) is what main.go calls after stripping a leading v from a valid v-prefixed version; the stripping itself is covered by the 4 linked binaries",
